@@ -373,10 +373,16 @@ fn expr(e: &Expr) -> J {
                 && x.lifetimes.is_none()
                 && x.constness.is_none()
                 && x.movability.is_none()
-                && x.asyncness.is_none()
-                && matches!(x.output, syn::ReturnType::Default) =>
+                && x.asyncness.is_none() =>
         {
-            obj! {"e": "closure", "move": x.capture.is_some(), "params": arr(&x.inputs, pat), "body": expr(&x.body)}
+            let ret = match &x.output {
+                syn::ReturnType::Default => None,
+                syn::ReturnType::Type(_, t) => Some(ty(t)),
+            };
+            obj! {"e": "closure", "move": x.capture.is_some(), "params": arr(&x.inputs, pat), "ret": ret, "body": expr(&x.body)}
+        }
+        Expr::ForLoop(x) if x.attrs.is_empty() && x.label.is_none() => {
+            obj! {"e": "for", "pat": pat(&x.pat), "iter": expr(&x.expr), "body": block(&x.body)}
         }
         _ => other(),
     }
@@ -420,6 +426,10 @@ fn pat(p: &Pat) -> J {
         }
         Pat::Or(x) if x.attrs.is_empty() => obj! {"p": "or", "cases": arr(&x.cases, pat)},
         Pat::Tuple(x) if x.attrs.is_empty() => obj! {"p": "tuple", "elems": arr(&x.elems, pat)},
+        Pat::Type(x) if x.attrs.is_empty() => obj! {"p": "typed", "pat": pat(&x.pat), "ty": ty(&x.ty)},
+        Pat::Ident(x) if x.attrs.is_empty() && x.subpat.is_some() => obj! {
+            "p": "bind", "name": x.ident.to_string(), "sub": pat(&x.subpat.as_ref().unwrap().1)
+        },
         Pat::Range(_) => obj! {"p": "range", "tokens": spaced(p)},
         _ => obj! {"p": "other", "tokens": spaced(p)},
     }
